@@ -23,6 +23,11 @@ def permit_bracket(tr, outcome, raised, env, ex, s):
     if enters:
         inside = [e for e in evs[enters[0] + 1:(exits[0] if exits else len(evs))] if e[0] == "call"]
         ok = len(enters) == 1 and len(exits) == 1 and enters[0] < body[0] < exits[0] and inside == [("call", "_execute")]
+        # ... and ALL of the node's work is inside: before the permit only the limiter lookup, after it only the pure
+        # packaging helper (a body that drains a generator / awaits anything after releasing the permit runs unguarded)
+        before = {e[1] for e in evs[:enters[0]] if e[0] == "call"}
+        after = {e[1] for e in evs[exits[0] + 1:] if e[0] == "call"} if exits else set()
+        ok = ok and before <= {"get_concurrency_limiter"} and after <= {"wrap_outputs"}
         return has if ok else False
     return z3.Not(has)
 
@@ -42,8 +47,12 @@ CONTRACTS = {
         props=["C15"],
         params={"self": OBJ("AsyncFunctionNodeExecutor"), "node": OBJ("FunctionNode"), "state": OBJ("GraphState"), "inputs": DICT(STR, ANY)},
         returns=DICT(STR, ANY),
+        # the node's own type invariant (same as the synchronous executor's): a call of wrap_outputs from this function is then
+        # checked against the node invariant, not against an unconstrained symbolic node
+        requires=["len(node.data_outputs) <= len(node.outputs)", "all(node.outputs[i] == node.data_outputs[i] for i in range(len(node.data_outputs)))", "distinct_names(node.outputs)"],
+        call_site="opaque",
         may_raise={"Exception": True},
-        trace=[{"name": "C15 permit bracket around the leaf body on every path; no hold-and-wait", "check": permit_bracket}],
+        trace=[{"name": "C15 permit bracket around the leaf body on every path; no hold-and-wait; nothing but packaging outside the permit", "check": permit_bracket}],
     ),
     SF + "__call__": dict(
         props=["C01"],
